@@ -132,7 +132,7 @@ fn stepper_programs() -> Vec<Vec<u8>> {
     else { for hi in [0x00u8, 0x01, 0x7f, 0x80, 0xff] { for lo in [0x00u8, 0x01, 0x02, 0x7f, 0x80, 0xfe, 0xff] { v.push(vec![0x82, hi, lo]); } } }
     v.push(vec![0x83, 0x00, 0x00, 0x00]); v.push(vec![0x83, 0x00, 0xff, 0xff]); v.push(vec![0x83, 0xff, 0xff, 0xff]);
     // a few operator programs: (q . 1), (f 1), (r 1), (c 2 3), (i 2 5 7), (a 2 3), (+ 5 11)
-    for hex in ["ff0101", "ff05ff0180", "ff06ff0180", "ff04ff02ff0380", "ff03ff02ff05ff0780", "ff02ff02ff0380", "ff10ff05ff0b80", "ff8200ffff0180", "ff01", "ff80ff0180"] {
+    for hex in ["ff03ffff0100ffff0101ffff010280", "ff03ffff01820000ffff0101ffff010280", "ff03ffff0180ffff0101ffff010280", "ff03ffff10ffff0100ffff010080ffff0101ffff010280", "ff0101", "ff05ff0180", "ff06ff0180", "ff04ff02ff0380", "ff03ff02ff05ff0780", "ff02ff02ff0380", "ff10ff05ff0b80", "ff8200ffff0180", "ff01", "ff80ff0180"] {
         v.push((0..hex.len() / 2).map(|i| u8::from_str_radix(&hex[2 * i..2 * i + 2], 16).unwrap()).collect());
     }
     v
@@ -417,7 +417,8 @@ fn chk_no_panic_bytes(data: &[u8]) -> Option<Value> {
 }
 
 // ---- C11: library entry point vs command-line tool path compile the same program
-fn chk_entry_points(src: &str, optimize: bool) -> Option<Value> {
+fn chk_entry_points(src: &str, optimize: bool) -> Option<Value> { chk_entry_points_inc(src, optimize, &[]) }
+fn chk_entry_points_inc(src: &str, optimize: bool, includes: &[String]) -> Option<Value> {
     use chialisp::classic::clvm_tools::clvmc::compile_clvm_text_maybe_opt;
     use chialisp::classic::clvm_tools::comp_input::RunAndCompileInputData;
     use chialisp::classic::platform::argparse::ArgumentValue;
@@ -427,21 +428,24 @@ fn chk_entry_points(src: &str, optimize: bool) -> Option<Value> {
     use std::collections::HashMap;
     use std::rc::Rc;
     let src_s = src.to_string();
+    let incs: Vec<String> = includes.to_vec();
     let res = catch_unwind(move || {
         let mut a = clvmr::Allocator::new();
         let opts: Rc<dyn CompilerOpts> = Rc::new(DefaultCompilerOpts::new("*command*"));
+        let opts = opts.set_search_paths(&incs);
         let mut syms = HashMap::new();
         let lib = compile_clvm_text_maybe_opt(&mut a, optimize, opts, &mut syms, &src_s, "*command*", false).ok()
             .and_then(|n| clvmr::serde::node_to_bytes(&a, n).ok());
         let mut args: HashMap<String, ArgumentValue> = HashMap::new();
         args.insert("path_or_code".to_string(), ArgumentValue::ArgString(None, src_s.clone()));
         if optimize { args.insert("optimize".to_string(), ArgumentValue::ArgBool(true)); }
+        if !incs.is_empty() { args.insert("include".to_string(), ArgumentValue::ArgArray(incs.iter().map(|i| ArgumentValue::ArgString(None, i.clone())).collect())); }
         let tool = RunAndCompileInputData::new(&mut a, &args).ok().and_then(|d| { let mut s2 = HashMap::new(); d.compile_modern(&mut a, &mut s2).ok() })
             .and_then(|x| convert_to_clvm_rs(&mut a, x).ok()).and_then(|n| clvmr::serde::node_to_bytes(&a, n).ok());
         (lib, tool)
     });
     match res {
-        Ok((l, t)) if l != t => Some(hit(json!({"source": src, "optimize": optimize}), format!("library entry: {:?}", l.map(|b| b.len())), format!("tool path: {:?}", t.map(|b| b.len())), "compile_clvm_text_maybe_opt vs RunAndCompileInputData::compile_modern (byte comparison)")),
+        Ok((l, t)) if l != t => Some(hit(json!({"source": src, "optimize": optimize, "include": includes}), format!("library entry: {:?}", l.map(|b| b.len())), format!("tool path: {:?}", t.map(|b| b.len())), "compile_clvm_text_maybe_opt vs RunAndCompileInputData::compile_modern (byte comparison)")),
         Err(_) => Some(hit(json!({"source": src}), "no panic".into(), "panic".into(), "entry point panicked")),
         _ => None,
     }
@@ -688,8 +692,92 @@ fn chk_cldb(prog_bytes: &[u8], envsel: u8) -> Option<Value> {
     }
 }
 
+// ---- C15: reader locations address the token text; byte-at-a-time == whole
+fn pos_table(text: &[u8]) -> Vec<(usize, usize)> {
+    // position (line, col) of every byte offset, plus the position after the last byte
+    let mut v = Vec::with_capacity(text.len() + 1);
+    let (mut line, mut col) = (1usize, 1usize);
+    for &b in text { v.push((line, col)); if b == b'\n' { line += 1; col = 1; } else if b == b'\t' { col = ((col + 8) / 8) * 8; } else { col += 1; } }
+    v.push((line, col));
+    v
+}
+fn leaves(s: &chialisp::compiler::sexp::SExp, out: &mut Vec<(chialisp::compiler::srcloc::Srcloc, String)>, lists: &mut Vec<chialisp::compiler::srcloc::Srcloc>) {
+    use chialisp::compiler::sexp::SExp;
+    match s { SExp::Cons(l, a, b) => { lists.push(l.clone()); leaves(a, out, lists); leaves(b, out, lists); } SExp::Nil(_) => {} other => out.push((other.loc(), other.to_string())) }
+}
+fn chk_reader(text: &[u8]) -> Option<Value> {
+    use chialisp::compiler::sexp::{parse_sexp, ParsePartialResult};
+    use chialisp::compiler::srcloc::Srcloc;
+    let t = text.to_vec();
+    let res = catch_unwind(move || {
+        let whole = parse_sexp(Srcloc::start("*r*"), t.iter().copied());
+        let mut ppr = ParsePartialResult::new(Srcloc::start("*r*"));
+        let mut inc_err = None;
+        for b in t.iter() { if let Err(e) = ppr.push(*b) { inc_err = Some(e); break; } }
+        let inc = match inc_err { Some(e) => Err(e), None => ppr.finalize() };
+        match (&whole, &inc) {
+            (Ok(a), Ok(b)) => { if format!("{:?}", a) != format!("{:?}", b) { return Some("byte-at-a-time result differs from whole-text result".to_string()); } }
+            (Err(a), Err(b)) => { if a != b { return Some(format!("byte-at-a-time error {:?} differs from whole-text error {:?}", b, a)); } }
+            _ => return Some("byte-at-a-time and whole-text parsing disagree on success".to_string()),
+        }
+        let pos = pos_table(&t);
+        let off_of = |p: (usize, usize)| pos.iter().position(|q| *q == p);
+        let is_delim = |b: u8| b == b' ' || b == b'\t' || b == b'\n' || b == b'\r' || b == b'(' || b == b')';
+        match whole {
+            Err((l, _)) => { if off_of((l.line, l.col)).is_none() { return Some(format!("error location {}:{} is outside the text", l.line, l.col)); } None }
+            Ok(forms) => {
+                for f in forms.iter() {
+                    let mut lv = vec![]; let mut lists = vec![];
+                    leaves(f, &mut lv, &mut lists);
+                    for (l, shown) in lv.iter() {
+                        let start = match off_of((l.line, l.col)) { Some(o) => o, None => return Some(format!("leaf {} at {}:{} is outside the text", shown, l.line, l.col)) };
+                        let end = match &l.until { Some(u) => match off_of((u.line, u.col)) { Some(o) => o, None => return Some(format!("leaf {} ends at {}:{}, outside the text", shown, u.line, u.col)) }, None => start + 1 };
+                        if start >= t.len() || end > t.len() || end <= start { return Some(format!("leaf {} has empty or inverted extent {}..{}", shown, start, end)); }
+                        let quoted = t[start] == b'"' || t[start] == b'\'';
+                        if is_delim(t[start]) { return Some(format!("leaf {} starts on a delimiter at offset {}", shown, start)); }
+                        if start > 0 && !is_delim(t[start - 1]) && t[start - 1] != b'"' && t[start - 1] != b'\'' && !quoted { return Some(format!("leaf {} starts inside a token (offset {})", shown, start)); }
+                        if !quoted {
+                            let ends_tok = |b: u8| b == b' ' || b == b'\t' || b == b'\n' || b == b'\r' || b == b')';
+                            let ws = |b: u8| b == b' ' || b == b'\t' || b == b'\n' || b == b'\r';
+                            if t[start..end].iter().any(|b| ws(*b)) { return Some(format!("leaf {} extent {}..{} spans white space", shown, start, end)); }
+                            if end < t.len() && !ends_tok(t[end]) { return Some(format!("leaf {} extent {}..{} stops inside its token", shown, start, end)); }
+                        } else if t[end - 1] != t[start] { return Some(format!("quoted leaf {} extent {}..{} does not end at its closing quote", shown, start, end)); }
+                    }
+                    let first_open = t.iter().position(|b| *b == b'(');
+                    let last_close = t.iter().rposition(|b| *b == b')');
+                    for l in lists.iter() {
+                        let start = off_of((l.line, l.col));
+                        let end = match &l.until { Some(u) => off_of((u.line, u.col)), None => start.map(|s| s + 1) };
+                        match (start, end, first_open, last_close) { (Some(s), Some(e), Some(o), Some(c)) if s >= o && e <= c + 1 => {}, _ => return Some(format!("list location {}:{} .. {:?} is not within the parentheses of the text", l.line, l.col, l.until)) }
+                    }
+                }
+                None
+            }
+        }
+    });
+    match res {
+        Ok(Some(o)) => Some(hit(json!({"text_bytes": text, "text": String::from_utf8_lossy(text)}), "every leaf location addresses exactly its token, lists lie within the parentheses, byte-at-a-time == whole".into(), o, "compiler::sexp::parse_sexp + ParsePartialResult")),
+        Err(_) => Some(hit(json!({"text_bytes": text}), "no panic".into(), "panic".into(), "reader panicked")),
+        _ => None,
+    }
+}
+
 pub fn search(name: &str, seed: u64) -> Value {
     match name {
+        "reader_locs" => {
+            let toks: Vec<&[u8]> = vec![b"(", b")", b" ", b"\t", b"\n", b"ab", b"x", b"12", b"0x1f", b"\"q s\"", b"'p'", b".", b";c\n"];
+            let n = toks.len();
+            let maxlen = if thorough() { 5 } else { 4 };
+            let mut count = 0u64;
+            for len in 1..=maxlen { for k in 0..n.pow(len as u32) {
+                let mut t: Vec<u8> = vec![]; let mut kk = k;
+                for _ in 0..len { t.extend_from_slice(toks[kk % n]); kk /= n; }
+                count += 1;
+                if let Some(v) = chk_reader(&t) { return v; }
+            } }
+            for t in [&b"(abcdef\tx yy)"[..], &b"(a\n\t(b c)\n  d)"[..], &b"       \t(q 1 2)"[..], &b"(\"a\\\"b\" c)"[..]] { if let Some(v) = chk_reader(t) { return v; } }
+            nf(&format!("reader locations and byte-at-a-time parsing agree with an independent position table on all {} texts of <= {} tokens over 13 token kinds (+ 4 tab / multi-line texts)", count, maxlen))
+        }
         "cldb" => {
             let mut progs = stepper_programs();
             for hex in ["ff10ffff0105ffff010b80", "ff02ffff01ff10ff02ffff010180ffff04ffff0107ff808080", "ff03ffff0101ffff0102ffff010380", "ff08ffff010580", "ff0bffff0183666f6f80", "ff12ffff0103ffff10ffff0102ffff01038080"] { progs.push(hexv(hex)); }
@@ -705,10 +793,12 @@ pub fn search(name: &str, seed: u64) -> Value {
                 ("(mod (X) (include *standard-cl-21*) (defun-inline f (A) (f (- A 1))) (f X))", "f|recurs", "(mod (X) (include *standard-cl-21*) (defun f (A) (if A (f (- A 1)) 0)) (f X))"),
                 ("(mod (X) (include *standard-cl-21*) (defun-inline f (A) (g (- A 1))) (defun-inline g (A) (f (+ A 2))) (f X))", "f|g|recurs", "(mod (X) (include *standard-cl-21*) (defun-inline f (A) (g (- A 1))) (defun g (A) (if A (f (+ A 2)) 0)) (f X))"),
                 ("(mod (X) (include *standard-cl-21*) (assign v1 (+ v2 1) v2 (+ v1 1) (* v1 v2)))", "v1|v2|deadlock|ircular", "(mod (X) (include *standard-cl-21*) (assign v1 (+ X 1) v2 (+ v1 1) (* v1 v2)))"),
+                ("(mod (X) (include *standard-cl-21*) (assign yy (+ yy X) (* yy 2)))", "yy|deadlock|ircular", "(mod (X) (include *standard-cl-21*) (assign yy (+ 1 X) (* yy 2)))"),
+                ("(mod (X) (include *standard-cl-21*) (assign (pp . qq) (c X pp) zz (+ X 1) (* zz 2)))", "pp|deadlock|ircular", "(mod (X) (include *standard-cl-21*) (assign (pp . qq) (c X 1) zz (+ X 1) (* zz 2)))"),
                 ("(mod (X) (include *standard-cl-21*) (assign v1 (+ X 1) v1 (+ X 2) (* v1 v1)))", "v1|uplicate|multiple", "(mod (X) (include *standard-cl-21*) (assign v1 (+ X 1) v2 (+ X 2) (* v1 v2)))"),
             ];
             for (bad, names, good) in cases.iter() { if let Some(v) = chk_scope(bad, names, good) { return v; } }
-            nf("8 ill-scoped programs (unbound name in main / in defun under a strict dialect, duplicate defun, inline+defun of one name, direct and mutual inline recursion, cyclic assign, duplicate assign binding) are rejected with an error naming the culprit, and each repaired twin compiles")
+            nf("10 ill-scoped programs (unbound name in main / in defun under a strict dialect, duplicate defun, inline+defun of one name, direct and mutual inline recursion, cyclic assign incl. self-reference, duplicate assign binding) are rejected with an error naming the culprit, and each repaired twin compiles")
         }
         "repl" => {
             let cases: Vec<(Vec<&str>, &str)> = vec![
@@ -721,10 +811,13 @@ pub fn search(name: &str, seed: u64) -> Value {
                 (vec!["(defun F (A B . C) (list A B C))"], "(F 1 2 3 4)"),
                 (vec!["(defun G ((@ whole (P Q)) R) (list whole P Q R))"], "(G (list 1 2) 3)"),
                 (vec!["(defconstant K 7)", "(defun addk (A) (+ A K))"], "(addk (addk 1))"),
+                (vec!["(defun H (A (@ Z (B C))) (if A Z (list B C)))"], "(H 1 (q 2 3 4))"),
+                (vec!["(defun H (A (@ Z (B C))) (if A Z (list B C)))"], "(H 1 (q 2 3 . 99))"),
+                (vec!["(defun H (A (@ Z (B C))) (if A Z (list B C)))"], "(H () (q 2 3 4))"),
                 (vec![], "(let ((pa 5) (pb 6)) (let* ((pc (+ pa pb)) (pd (* pc pc))) (list pa pb pc pd)))"),
             ];
             for (d, e) in cases.iter() { if let Some(v) = chk_repl(d, e) { return v; } }
-            nf("10 REPL sessions (arithmetic, recursion, inline, assign destructuring of 3/4/nested patterns, rest args, @ capture, constants, let/let*) reduce to the constant the compiled cl21 program returns")
+            nf("13 REPL sessions (arithmetic, recursion, inline, assign destructuring of 3/4/nested patterns, rest args, @ capture, constants, let/let*) reduce to the constant the compiled cl21 program returns")
         }
         "source_meaning" => {
             for (b, at, ex) in meaning_cases() { for d in [Some("*standard-cl-21*"), Some("*standard-cl-23*")] {
@@ -772,7 +865,23 @@ pub fn search(name: &str, seed: u64) -> Value {
                 let src = with_dialect(b, d);
                 if let Some(v) = chk_entry_points(&src, o) { return v; }
             } } }
-            nf("library entry and tool path emit identical bytes for 3 programs x cl21/cl22/cl23 x optimize on/off")
+            // search path with a repeated directory and a same-named include file that differs between the two directories
+            let base = std::env::temp_dir().join(format!("verif_replay_entry_{}", std::process::id()));
+            let (da, db) = (base.join("A"), base.join("B"));
+            let _ = std::fs::remove_dir_all(&base);
+            if std::fs::create_dir_all(&da).is_ok() && std::fs::create_dir_all(&db).is_ok() {
+                let _ = std::fs::write(da.join("kk.clib"), "((defconstant KK 1111))");
+                let _ = std::fs::write(db.join("kk.clib"), "((defconstant KK 2222))");
+                let (sa, sb) = (da.to_string_lossy().to_string(), db.to_string_lossy().to_string());
+                for incs in [vec![sa.clone(), sb.clone()], vec![sb.clone(), sa.clone()], vec![sa.clone(), sb.clone(), sa.clone()], vec![sb.clone(), sa.clone(), sb.clone()]] {
+                    for d in ["*standard-cl-21*", "*standard-cl-23*"] {
+                        let src = format!("(mod (X) (include {}) (include kk.clib) (+ X KK))", d);
+                        if let Some(v) = chk_entry_points_inc(&src, true, &incs) { let _ = std::fs::remove_dir_all(&base); return v; }
+                    }
+                }
+                let _ = std::fs::remove_dir_all(&base);
+            }
+            nf("library entry and tool path emit identical bytes for 3 programs x cl21/cl22/cl23 x optimize on/off, and for 4 search-path lists (incl. a repeated directory) x cl21/cl23")
         }
         "no_panic" => {
             let alpha: &[u8] = b"().\"'\\#;0xa-\n ";
